@@ -111,6 +111,7 @@ class Baton:
         self.write_lines = write_lines or frozenset()
         self.wcount = 0
         self.wsite = {}
+        self.lock_yields = 0
 
     # -- task management -------------------------------------------------
     def add(self, fn):
@@ -189,6 +190,39 @@ class Baton:
             raise SimBudgetExceeded(self.aborted)
         if self.quantum <= 0:
             self._dispatch(me)
+
+    def yield_now(self):
+        """The current task cannot make progress (it waits for a lock another
+        simulated task holds): hand the baton to the next runnable task in
+        cyclic order for a short quantum.  Recorded like any other segment."""
+        me = getattr(_current, 'tid', None)
+        if me is None or me != self.cur:
+            return
+        if self.aborted:
+            raise SimAbort(self.aborted)
+        self.lock_yields += 1
+        if self.lock_yields > 200000:
+            self._abort('tasks spin on a lock that is never released')
+            raise SimBudgetExceeded(self.aborted)
+        if self.schedule_in is not None:
+            # replay: the recorded schedule already contains the switch
+            self.quantum = 0
+            self._dispatch(me)
+            return
+        runnable = [t for t in self._runnable() if t != me]
+        if not runnable:
+            return
+        nxt = min((t for t in runnable if t > me), default=runnable[0])
+        self._close_segment()
+        self.switches += 1
+        if self.on_switch is not None:
+            self.on_switch(me, nxt, self)
+        self.cur = nxt
+        self.quantum = 25
+        self.tasks[nxt].sem.release()
+        self.tasks[me].sem.acquire()
+        if self.aborted:
+            raise SimAbort(self.aborted)
 
     def _abort(self, why):
         if self.aborted is None:
@@ -381,3 +415,84 @@ class LineCounter:
 
     def __exit__(self, *a):
         sys.settrace(self._old)
+
+
+# ---------------------------------------------------------------------------
+# locks: a simulated task that blocks on a real lock would keep the baton
+# ---------------------------------------------------------------------------
+
+import threading as _threading
+
+_REAL_LOCK = _threading.Lock
+_REAL_RLOCK = _threading.RLock
+_LOCK_TYPES = (type(_REAL_LOCK()), type(_REAL_RLOCK()))
+
+
+class CoopLock:
+    """Drop-in lock for the code under test: blocking acquisition by a
+    simulated task yields the baton instead of blocking the whole
+    simulation; outside a simulation it is a plain lock."""
+
+    def __init__(self, real):
+        self._real = real
+
+    def acquire(self, blocking=True, timeout=-1):
+        b = current_baton()
+        if b is None or not blocking:
+            if not blocking:
+                return self._real.acquire(False)
+            return self._real.acquire(True, timeout)
+        while not self._real.acquire(False):
+            b.yield_now()
+        return True
+
+    def release(self):
+        self._real.release()
+
+    def locked(self):
+        return self._real.locked()
+
+    def __enter__(self):
+        self.acquire()
+        return self
+
+    def __exit__(self, *a):
+        self.release()
+
+
+def _from_code_under_test(depth=2):
+    f = sys._getframe(depth)
+    name = f.f_globals.get('__name__', '')
+    return name == 'yaql' or name.startswith('yaql.')
+
+
+def _lock_factory(*a, **k):
+    real = _REAL_LOCK(*a, **k)
+    return CoopLock(real) if _from_code_under_test() else real
+
+
+def _rlock_factory(*a, **k):
+    real = _REAL_RLOCK(*a, **k)
+    return CoopLock(real) if _from_code_under_test() else real
+
+
+def install_coop_locks():
+    """Locks created by yaql code from now on, and lock objects already held
+    in yaql module globals (or one level inside module-global objects),
+    become cooperative.  Idempotent."""
+    _threading.Lock = _lock_factory
+    _threading.RLock = _rlock_factory
+    for name, mod in list(sys.modules.items()):
+        if not (name == 'yaql' or name.startswith('yaql.')) or mod is None:
+            continue
+        for k, v in list(vars(mod).items()):
+            if isinstance(v, _LOCK_TYPES):
+                setattr(mod, k, CoopLock(v))
+            elif hasattr(v, '__dict__') and not isinstance(v, type(sys)) \
+                    and type(v).__module__.startswith('yaql'):
+                try:
+                    for k2, v2 in list(vars(v).items()):
+                        if isinstance(v2, _LOCK_TYPES):
+                            setattr(v, k2, CoopLock(v2))
+                except Exception:
+                    pass
